@@ -2308,6 +2308,10 @@ def _one_info_identifier_alias(
     self: fst.FST, static: onestatic, idx: int | None, field: str
 ) -> oneinfo:  # required, cannot delete or put new
     ln, col, end_ln, end_col = self.loc
+
+    if not self.a.asname:  # the whole alias is the name, which may be spread out with whitespace or line continuations around the dots
+        return oneinfo('', None, fstloc(ln, col, end_ln, end_col))
+
     end_col = re_identifier_alias.match(self.root._lines[ln], col,
                                         end_col if end_ln == ln else 0x7fffffffffffffff).end()  # must be there
 
